@@ -20,6 +20,9 @@
 #define VC_K 2
 #endif
 #define VC_SPUR 1
+#ifndef VC_QPOLLS
+#define VC_QPOLLS 7      /* more than the 4 polls after which _mi_page_try_use_delayed_free gives up */
+#endif
 #ifndef VC_NB
 #define VC_NB 3
 #endif
@@ -39,8 +42,18 @@ static mi_delayed_t g_role_delay; static bool g_role_is_flag;   /* which guarant
 
 static size_t list_len(mi_block_t* b) { size_t n = 0; while (b != NULL && n <= NB + VC_K + 1) { n++; b = (mi_block_t*)b->next; } return n; }
 
+static bool q_mode, old_window; static size_t q_polls;     /* queue-append scenario (see h_queue_append) */
 void vc_interfere(void* addr, size_t size) {
   (void)size;
+  if (q_mode) {
+    /* a remote thread that entered its DELAYED_FREEING window BEFORE the page was re-parented eventually leaves it
+       (fairness: at the latest after VC_QPOLLS polls of the owner); it does nothing else to this word meanwhile */
+    if (addr == (void*)&pg.xthread_free && old_window) {
+      q_polls++;
+      if (q_polls >= VC_QPOLLS || vc_nondet_bool("leave")) { pg.xthread_free = (pg.xthread_free & ~(uintptr_t)3) | MI_NO_DELAYED_FREE; old_window = false; }
+    }
+    return;
+  }
   if (addr == (void*)&pg.xthread_free && vc_budget > 0 && vc_nondet_bool("interfere")) {
     vc_budget--;
     const uintptr_t w = pg.xthread_free; const uintptr_t fl = w & 3;
@@ -61,7 +74,8 @@ void vc_atomic_wrote(void* addr, uintptr_t o, uintptr_t n) {
     else { __CPROVER_assert(n == 0, "the owner only swaps the delayed list out (NULL) or re-inserts one of its blocks"); g_swap_n++; }
   }
   if (addr == (void*)&pg.xthread_free) {
-    if (!g_role_is_flag) {
+    if (q_mode) { __CPROVER_assert((o & 3) != MI_DELAYED_FREEING, "G-flag: never writes while another thread is in its delayed-freeing window"); }
+    else if (!g_role_is_flag) {
       __CPROVER_assert((n & ~(uintptr_t)3) == 0 && (n & 3) == (o & 3), "G-take: the owner's write swaps the list out (head := NULL) and keeps the flags");
       g_take_n++; g_taken_word = o; g_pushed_before_take = vc_pushed;
     } else {
@@ -109,6 +123,8 @@ void h_thread_free_collect(void) {
   /* blocks pushed after the take-over are still published on the page (they are not lost, and not collected twice) */
   __CPROVER_assert(list_len((mi_block_t*)(pg.xthread_free & ~(uintptr_t)3)) == vc_pushed - g_pushed_before_take, "later remote frees stay on the remote list");
   VC_REACH();
+  #undef pq
+  #undef app
 }
 
 /* owner (re)arms the delayed-free flag */
@@ -120,6 +136,8 @@ void h_try_use_delayed_free(void) {
   __CPROVER_assert(g_flagwrite_n <= 1, "at most one successful flag write");
   if (!ok) { __CPROVER_assert(g_flagwrite_n == 0, "giving up (after 4 yields) writes nothing"); }
   VC_REACH();
+  #undef pq
+  #undef app
 }
 
 /* ---- owner drains the heap's delayed-free list (C08) ---- */
@@ -147,4 +165,25 @@ void h_delayed_free_partial(void) {
   __CPROVER_assert(!(freed[w] && repushed[w]), "a freed block is not left on the list");
   __CPROVER_assert(!all || freed[w], "'all freed' is reported only if every block was freed");
   VC_REACH();
+  #undef pq
+  #undef app
+}
+
+/* ---- heap delete re-parents the pages of a queue while a remote free may be in flight (C10, C02) ---- */
+void h_queue_append(void) {
+  static mi_heap_t to;
+  #define pq  (to.pages[8])       /* the queue of the 64-byte class in the absorbing heap ... */
+  #define app (hp.pages[8])       /* ... and in the heap that is being deleted */
+  q_mode = true; q_polls = 0; vc_spur = 0;
+  const uint8_t fl = vc_nondet_u8("flags") & 3;
+  pg.xthread_free = fl; old_window = (fl == MI_DELAYED_FREEING);     /* a remote thread may be inside its window and may already have read the OLD heap */
+  pg.xheap = (uintptr_t)&hp; pg.next = NULL; pg.prev = NULL;
+  app.first = &pg; app.last = &pg; pq.first = NULL; pq.last = NULL; pq.block_size = app.block_size = 64; pg.block_size = 64;
+  size_t n = _mi_page_queue_append(&to, &pq, &app);
+  __CPROVER_assert(n == 1 && (mi_heap_t*)pg.xheap == &to, "every appended page belongs to the absorbing heap");
+  __CPROVER_assert(!old_window, "no thread is still inside a delayed-freeing window that began before the page was re-parented (it could push onto the deleted heap)");
+  __CPROVER_assert(pq.first == &pg && pq.last == &pg, "the page is linked into the target queue");
+  VC_REACH();
+  #undef pq
+  #undef app
 }
